@@ -99,12 +99,16 @@ pub trait ExSeek {
     type ExternalTraitSpecificationFor: std::io::Seek;
     spec fn spos(&self) -> nat;
     spec fn slen(&self) -> nat;
+    spec fn scontent(&self) -> Seq<u8>;     // the bytes held (a seek never changes them)
+    spec fn sreliable(&self) -> bool;
     spec fn sfail(&self) -> nat;
     spec fn sops(&self) -> nat;
 
     fn seek(&mut self, pos: SeekFrom) -> (r: Result<u64, std::io::Error>)
         ensures
             (*final(self)).slen() == (*old(self)).slen(),
+            (*final(self)).scontent() == (*old(self)).scontent(),
+            (*final(self)).sreliable() == (*old(self)).sreliable(),
             (*final(self)).sops() == (*old(self)).sops() + 1,
             r is Ok ==> (*final(self)).sfail() == (*old(self)).sfail() && match pos {
                 SeekFrom::Start(n) => (*final(self)).spos() == n,
@@ -142,7 +146,11 @@ pub broadcast axiom fn ax_ws_ops<T: Write + Seek>(t: &T)
 pub broadcast axiom fn ax_ws_ops2<T: Write + Seek>(t: &T)
     ensures t.nops() == #[trigger] t.sops();
 // seeking does not change the content of a destination / whether it is flushed is not preserved
-pub broadcast group g_ws { ax_ws_pos, ax_ws_pos2, ax_ws_len, ax_ws_len2, ax_ws_fail, ax_ws_fail2, ax_ws_ops, ax_ws_ops2 }
+pub broadcast axiom fn ax_ws_content<T: Write + Seek>(t: &T)
+    ensures #[trigger] t.out() == t.scontent();
+pub broadcast axiom fn ax_ws_content2<T: Write + Seek>(t: &T)
+    ensures t.out() == #[trigger] t.scontent();
+pub broadcast group g_ws { ax_ws_content, ax_ws_content2, ax_ws_pos, ax_ws_pos2, ax_ws_len, ax_ws_len2, ax_ws_fail, ax_ws_fail2, ax_ws_ops, ax_ws_ops2 }
 
 // A source that is both Read and Seek has ONE cursor and its length is the data length.
 pub broadcast axiom fn ax_rs_pos<T: Read + Seek>(t: &T)
@@ -157,7 +165,15 @@ pub broadcast axiom fn ax_rs_fail<T: Read + Seek>(t: &T)
     ensures #[trigger] t.rfail() == t.sfail();
 pub broadcast axiom fn ax_rs_fail2<T: Read + Seek>(t: &T)
     ensures t.rfail() == #[trigger] t.sfail();
-pub broadcast group g_rs { ax_rs_pos, ax_rs_pos2, ax_rs_len, ax_rs_len2, ax_rs_fail, ax_rs_fail2 }
+pub broadcast axiom fn ax_rs_content<T: Read + Seek>(t: &T)
+    ensures #[trigger] t.data() == t.scontent();
+pub broadcast axiom fn ax_rs_content2<T: Read + Seek>(t: &T)
+    ensures t.data() == #[trigger] t.scontent();
+pub broadcast axiom fn ax_rs_rel<T: Read + Seek>(t: &T)
+    ensures #[trigger] t.reliable() == t.sreliable();
+pub broadcast axiom fn ax_rs_rel2<T: Read + Seek>(t: &T)
+    ensures t.reliable() == #[trigger] t.sreliable();
+pub broadcast group g_rs { ax_rs_content, ax_rs_content2, ax_rs_rel, ax_rs_rel2, ax_rs_pos, ax_rs_pos2, ax_rs_len, ax_rs_len2, ax_rs_fail, ax_rs_fail2 }
 
 /// the effect of one successful `write_all(b)`: positional write, cursor advanced, no failure.
 /// Closed: callers reason with the lemmas below (keeps the SMT queries small).
